@@ -238,12 +238,13 @@ def judgeEngine (inp : Input) (inst : Nat) (model : Pandora.Model.C18Engine.Engi
   match getN? kv "guns", getN? kv "cells", getN? kv "own", parseNats (getS kv "binds"),
         (splitList (getS kv "seen")).mapM parseTriple with
   | some guns, some cells, some own, some binds, some seen =>
-    if getS kv "res" != model.res then
+    if binds.any (· > 1) then "fail:fresh:one gun was bound to more than one instance"
+    else if getS kv "res" == "nilgun" then "fail:errors:the gun factory handed out a nil gun with a nil error (an error did not reach the caller)"
+    else if getS kv "res" != model.res then
       s!"fail:errors:the pool run ended {getS kv "res"}, the constructor/config error plan says {model.res}"
     else if getS kv "res" == "ok" && guns != inst + 1 then "fail:errors:a pool without error built another number of guns than instances + 1"
     else if !seen.all (fun t => if inp.sh.cfg = .none then t == (0, 0, 0) else t == (exp.get 1, exp.get 2, exp.get 3)) then
       "fail:config:a gun was not built from the defaults overlaid by the user's settings"
-    else if binds.any (· > 1) then "fail:fresh:one gun was bound to more than one instance"
     else if freshApplies gi && (own != cells || (inp.sh.cfg == .ptr && cells != guns)) then
       "fail:fresh:guns of different instances share a configuration object"
     else "ok"
@@ -258,6 +259,7 @@ def handleEngine (input impl : String) : String × String :=
     | none => ("-", "fail:driver:via=engine with a registration Register refuses")
     | some m =>
       if impl.startsWith "eng skip=" then ("-", "skip:inconclusive " ++ (impl.drop 9).toString) else
+      if impl == "regpanic" then (showEngine m, "fail:regpanic:valid registration through core/register panicked") else
       (showEngine m, judgeEngine inp inst m (parseKV impl))
   | _, _ => ("-", "fail:driver:unparsable input")
 
